@@ -265,11 +265,18 @@ func (a *Operator) useHexEscapes(input string) string {
 func (o *Operator) dontUseFlagsForMetaCharacters(input string) string {
 	result := input
 	flagsStartRegexp := regexp.MustCompile(`\(\?[-misU]+\)`)
-	result = flagsStartRegexp.ReplaceAllLiteralString(result, "")
+	for {
+		location := firstUnescapedMatch(flagsStartRegexp, result)
+		if len(location) > 0 {
+			result = result[:location[0]] + result[location[1]:]
+		} else {
+			break
+		}
+	}
 
 	flagGroupStartRegexp := regexp.MustCompile(`\(\?[-misU]+:`)
 	for {
-		location := flagGroupStartRegexp.FindStringIndex(result)
+		location := firstUnescapedMatch(flagGroupStartRegexp, result)
 		if len(location) > 0 {
 			result = o.removeGroup(result, location[0], location[1], false)
 		} else {
@@ -277,6 +284,25 @@ func (o *Operator) dontUseFlagsForMetaCharacters(input string) string {
 		}
 	}
 	return result
+}
+
+// Returns the location of the first match of `matcher` in `input` that does not
+// start with an escaped character, e.g., `\(?i:` is ordinary text, not a flag group.
+// Returns `nil` if there is no such match.
+func firstUnescapedMatch(matcher *regexp.Regexp, input string) []int {
+	searchStart := 0
+	for searchStart < len(input) {
+		location := matcher.FindStringIndex(input[searchStart:])
+		if len(location) == 0 {
+			return nil
+		}
+		matchStart := searchStart + location[0]
+		if !utils.IsEscaped(input, matchStart) {
+			return []int{matchStart, searchStart + location[1]}
+		}
+		searchStart = matchStart + 1
+	}
+	return nil
 }
 
 // Remove groups like `...(?-s:...)...`.
